@@ -40,7 +40,8 @@ func (p *PathBuilder) String() string {
 	sb := NewStringBuilder()
 	defer FreeStringBuilder(sb)
 	for i, v := range *p {
-		if i > 0 && (*p)[i-1] != "" && v[0] != '[' {
+		// (a segment may be empty: a field keyed by an empty struct tag)
+		if i > 0 && (*p)[i-1] != "" && (len(v) == 0 || v[0] != '[') {
 			sb.WriteString(".")
 		}
 		sb.WriteString(v)
